@@ -2,6 +2,7 @@ package spec
 
 import (
 	"fmt"
+	"slices"
 	"strings"
 
 	"github.com/gardenbed/emerge/internal/regex/parser/nfa"
@@ -60,9 +61,18 @@ func (s *Spec) DFA() (*auto.DFA, map[grammar.Terminal][]auto.State, error) {
 		}
 	}
 
+	// Visit the final states in ascending order, so that neither the state lists
+	// nor the order of the diagnostics depend on the iteration order of the map.
+	finals := make([]auto.State, 0, len(stateDefs))
+	for f := range stateDefs {
+		finals = append(finals, f)
+	}
+	slices.Sort(finals)
+
 	// Map each terminal to a set of final states while ensuring each final state identifies a single terminal.
 	termMap := make(map[grammar.Terminal][]auto.State)
-	for f, defs := range stateDefs {
+	for _, f := range finals {
+		defs := stateDefs[f]
 		switch len(defs) {
 		case 0:
 		case 1:
